@@ -23,10 +23,23 @@ import (
 // order (V=-1 deletes), optionally through UpdateBatch, optionally with a
 // Hash() call after the first half.
 type TrieGen struct {
-	E       []BE `json:"e"`
-	Batch   bool `json:"batch,omitempty"`
-	PreHash bool `json:"prehash,omitempty"`
-	DelAPI  bool `json:"del_api,omitempty"` // deletions through Delete instead of the empty-value Update
+	E       []BE     `json:"e"`
+	Batch   bool     `json:"batch,omitempty"`
+	PreHash bool     `json:"prehash,omitempty"`
+	DelAPI  bool     `json:"del_api,omitempty"` // deletions through Delete instead of the empty-value Update
+	Copy    *CopyGen `json:"copy,omitempty"`
+}
+
+// CopyGen: before entry number At of the trie's modification list (At == len: after
+// the last one) the harness optionally reads every pool key (Warm), takes
+// Trie.Copy(), applies E to the copy, checks the copy's root (and, with Commit, the
+// copy's own node set) and drops the copy. The original goes on and its commit is
+// judged as always: a copy must not leak anything into it.
+type CopyGen struct {
+	At     int  `json:"at"`
+	Warm   bool `json:"warm,omitempty"`
+	E      []BE `json:"e"`
+	Commit bool `json:"commit,omitempty"`
 }
 
 type Gen07 struct {
@@ -62,6 +75,10 @@ func genTrieGen(r *simcore.Rand, nk, nv int, live map[int]bool, first bool) Trie
 		} else {
 			live[k] = true
 		}
+	}
+	start := make(map[int]bool, len(live))
+	for k := range live {
+		start[k] = true
 	}
 	mode := r.Pick(6, 2, 2, 3, 2, 1)
 	if first {
@@ -118,6 +135,40 @@ func genTrieGen(r *simcore.Rand, nk, nv int, live map[int]bool, first bool) Trie
 	g.Batch = r.Bool(0.2)
 	g.PreHash = r.Bool(0.3)
 	g.DelAPI = r.Bool(0.5)
+	if r.Bool(0.35) {
+		// a copy that is modified (mostly structure-changing deletions) and dropped
+		c := &CopyGen{At: len(g.E), Warm: r.Bool(0.7), Commit: r.Bool(0.4)}
+		if r.Bool(0.5) {
+			c.At = r.Intn(len(g.E) + 1)
+		}
+		at := start
+		for _, e := range g.E[:c.At] {
+			if e.V < 0 {
+				delete(at, e.K)
+			} else {
+				at[e.K] = true
+			}
+		}
+		var ll []int
+		for k := range at {
+			ll = append(ll, k)
+		}
+		sort.Ints(ll)
+		n := r.Range(1, 12)
+		if r.Bool(0.15) {
+			n = len(ll) // delete (almost) everything in the copy
+		}
+		for i := 0; i < n; i++ {
+			if len(ll) > 0 && r.Bool(0.8) {
+				j := r.Intn(len(ll))
+				c.E = append(c.E, BE{ll[j], -1})
+				ll = append(ll[:j], ll[j+1:]...)
+			} else {
+				c.E = append(c.E, BE{r.Intn(nk), r.Intn(nv)})
+			}
+		}
+		g.Copy = c
+	}
 	return g
 }
 
@@ -215,6 +266,24 @@ func Shrink07(pl any) []any {
 				out = append(out, q)
 				if len(out) > 600 {
 					return out
+				}
+			}
+			if tg.Copy != nil {
+				q := clonePlan(p)
+				q.Gens[g].Tries[t].Copy = nil
+				out = append(out, q)
+				for _, e := range simcore.ShrinkSlice(tg.Copy.E) {
+					if len(e) == 0 {
+						continue
+					}
+					q := clonePlan(p)
+					q.Gens[g].Tries[t].Copy.E = e
+					out = append(out, q)
+				}
+				if tg.Copy.Warm || tg.Copy.Commit {
+					q := clonePlan(p)
+					q.Gens[g].Tries[t].Copy.Warm, q.Gens[g].Tries[t].Copy.Commit = false, false
+					out = append(out, q)
 				}
 			}
 			if tg.Batch || tg.PreHash {
@@ -356,7 +425,73 @@ func Run07(t *testing.T, pl any) *simcore.Result {
 			if len(list) > 100 {
 				res.Probe("parallel-committer")
 			}
+			// Trie.Copy at the planned point
+			copyAt := -1
+			if tg.Copy != nil {
+				copyAt = min(tg.Copy.At, len(list))
+				if tg.Batch && len(list) > 0 {
+					if 2*copyAt <= len(list) {
+						copyAt = 0
+					} else {
+						copyAt = len(list)
+					}
+				}
+			}
+			doCopy := func(at int) *simcore.Violation {
+				if at != copyAt {
+					return nil
+				}
+				cg := tg.Copy
+				if cg.Warm {
+					for _, k := range p.Keys {
+						if _, err := tr.Get(k); err != nil {
+							return simcore.Violf("op-error", "%s: Get(%x) before Copy failed: %v", where, []byte(k), err)
+						}
+					}
+				}
+				cm := tt.m.clone()
+				for _, e := range list[:at] {
+					cm.set(e.k, e.v)
+				}
+				cp := tr.Copy()
+				for i, e := range cg.E {
+					k, v := key(e.K), val(e.V)
+					var err error
+					if len(v) == 0 && i%2 == 0 {
+						err = cp.Delete(k)
+					} else {
+						err = cp.Update(k, v)
+					}
+					if err != nil {
+						return simcore.Violf("op-error", "%s: update of %x on the copy failed: %v", where, k, err)
+					}
+					cm.set(k, v)
+				}
+				cwant, cstore := refStore(cm)
+				if h := cp.Hash(); h != cwant {
+					return simcore.Violf("copy-root-mismatch", "%s: root of the modified copy %x, root of its key/value set %x", where, h, cwant)
+				}
+				if cg.Commit {
+					croot, cset := cp.Commit(false)
+					if croot != cwant {
+						return simcore.Violf("copy-root-mismatch", "%s: Commit of the copy returned %x, expected %x", where, croot, cwant)
+					}
+					capplied, v := applyNodeSet(where+" (copy)", tt.store, cset, res)
+					if v != nil {
+						return v
+					}
+					if d := diffStores(capplied, cstore, func(k string) string { return fmt.Sprintf("path %x", []byte(k)) }); d != "" {
+						return simcore.Violf("nodeset-apply-mismatch", "%s: node set committed by the copy, applied to the original trie's node store: %s", where, d)
+					}
+					res.Probe("copy-committed")
+				}
+				res.Probe("copy-dropped")
+				return nil
+			}
 			if tg.Batch && len(list) > 0 {
+				if v := doCopy(0); v != nil {
+					return fail(v)
+				}
 				ks := make([][]byte, len(list))
 				vs := make([][]byte, len(list))
 				for i, e := range list {
@@ -365,8 +500,14 @@ func Run07(t *testing.T, pl any) *simcore.Result {
 				if err := tr.UpdateBatch(ks, vs); err != nil {
 					return fail(simcore.Violf("op-error", "%s: UpdateBatch failed: %v", where, err))
 				}
+				if v := doCopy(len(list)); v != nil {
+					return fail(v)
+				}
 			} else {
 				for i, e := range list {
+					if v := doCopy(i); v != nil {
+						return fail(v)
+					}
 					var err error
 					if len(e.v) == 0 && tg.DelAPI {
 						err = tr.Delete(e.k)
@@ -379,6 +520,9 @@ func Run07(t *testing.T, pl any) *simcore.Result {
 					if tg.PreHash && i == len(list)/2 {
 						tr.Hash()
 					}
+				}
+				if v := doCopy(len(list)); v != nil {
+					return fail(v)
 				}
 			}
 			for _, e := range list {
